@@ -35,15 +35,20 @@ def one(bid):
                    'demo_exit_repaired': d_mut.returncode}
             json.dump(rec, open(os.path.join(path, 'confirmed.json'), 'w'), indent=1)
             return bid, rec
-        script = os.path.join(VERIF, 'benign', SCRIPT[bid[1]])
+        listed = os.path.join(path, 'scripts.txt')
+        scripts = [l.strip() for l in open(listed) if l.strip()] if os.path.isfile(listed) else [SCRIPT[bid[1]]]
         os.makedirs(f"{tmp}/run")
         digests = {}
         for name in ('ref', 'mut'):
-            p = subprocess.run(f"cd {tmp}/run && PYTHONPATH={tmp}/{name} DIFF_HISTORIES=250 {PY} -W ignore {script} 2>/dev/null | sha256sum", shell=True, capture_output=True, text=True,
-                               timeout=1800)
-            digests[name] = p.stdout.split()[0] if p.stdout.split() else 'none'
-        ok = tests_ok and digests['ref'] == digests['mut'] and digests['ref'] != 'none'
-        rec = {'ok': ok, 'base': sh('git -C /repo rev-parse --short HEAD').stdout.strip(), 'test_suite': last[:60], 'differential_script': SCRIPT[bid[1]],
+            parts = []
+            for sc in scripts[:3]:
+                script = os.path.join(VERIF, 'benign', sc)
+                p = subprocess.run(f"cd {tmp}/run && PYTHONHASHSEED=0 PYTHONPATH={tmp}/{name} DIFF_HISTORIES=120 {PY} -W ignore {script} 2>/dev/null | sha256sum", shell=True,
+                                   capture_output=True, text=True, timeout=1800)
+                parts.append(p.stdout.split()[0] if p.stdout.split() else 'none')
+            digests[name] = '+'.join(parts)
+        ok = tests_ok and digests['ref'] == digests['mut'] and 'none' not in digests['ref']
+        rec = {'ok': ok, 'base': sh('git -C /repo rev-parse --short HEAD').stdout.strip(), 'test_suite': last[:60], 'differential_script': ', '.join(scripts[:3]),
                'transcript_sha256_unchanged': digests['ref'], 'transcript_sha256_patched': digests['mut']}
         json.dump(rec, open(os.path.join(path, 'confirmed.json'), 'w'), indent=1)
         return bid, rec
